@@ -34,7 +34,7 @@ def oracle (v : Value) (p q : Path) (x : Value) (v' : Value)
     match C18.frameClass (some v) p with
     | .coerce => "fails frame:D_coerce"
     | .pad => "fails frame:D_pad"
-    | .shift => "fails frame:D_shift"
+    | .shift => if C18.shiftNeg v p q then "fails frame_shift_negative:-" else "fails frame:D_shift"
     | .none => "fails frame:-"
   else "holds"
 
